@@ -1,6 +1,6 @@
 (* Properties/C28.v — No network access unless the configuration enables it.
    Statements only.  Model: Model/NetGate.v — the requests made by reading, ingredient import and signing
-   over configuration (remote_manifest_fetch, ocsp_fetch, certificate_status_fetch) x asset kind
+   over configuration (remote_manifest_fetch, ocsp_fetch, certificate_status_fetch, auto_timestamp_assertion.{enabled, skip_existing, fetch_scope}) x asset kind
    (embedded, remote-only, remote+embedded, none, OCSP responder named, OCSP stapled and usable, remote-only with responder, OCSP stapled but unusable) x signer (TSA URL or
    not) x operation x whether the resolver serves the remote manifest. *)
 From Coq Require Import List NArith Bool.
@@ -8,7 +8,7 @@ From C2PA Require Import Model.NetGate Proofs.NetGateProofs.
 Import ListNotations.
 Open Scope N_scope.
 
-(* the whole finite domain, spelled out in Model/NetGate.v ([domain], 8 x 8 x 2 x 3 x 2 = 768 points),
+(* the whole finite domain, spelled out in Model/NetGate.v ([domain], 64 x 8 x 2 x 3 x 2 = 6144 points),
    evaluated by vm_compute and lifted; [gated] is the property at one point *)
 Theorem c28_domain_checked : forallb (gated 7) domain = true.
 Proof. exact gated_domain. Qed.
@@ -21,13 +21,15 @@ Proof. exact gated_everywhere. Qed.
 
 (* the same for every referenced URL, in propositional form: a manifest request only for the referenced URL
    of a remote-only asset with remote_manifest_fetch on; an OCSP request only with ocsp_fetch or
-   certificate_status_fetch on; a time-stamp request only when the signer has a TSA URL *)
+   certificate_status_fetch on; a time-stamp request only when the signer has a TSA URL; a time-stamp request for an
+   ingredient manifest only with auto_timestamp_assertion.enabled and such a signer *)
 Theorem c28_no_request_unless_enabled :
   forall u c k s o b rq out,
     requests c (A k u) s o b = (rq, out) ->
     (forall v, In (RManifest v) rq -> v = u /\ rmf c = true /\ remote_only k = true) /\
     (In ROcsp rq -> ocspf c = true \/ csf c = true) /\
-    (In RTsa rq -> s = STsa).
+    (In RTsa rq -> s = STsa) /\
+    (In RTsaIng rq -> ats_on c = true /\ s = STsa).
 Proof. exact no_request_unless_enabled. Qed.
 
 (* remote manifest fetching disabled + remote-only asset: the remote-manifest error carrying the URL, no request *)
@@ -39,8 +41,19 @@ Theorem c28_embedded_never_fetches :
   forall u c k s o b, has_embedded k = true -> existsb is_manifest (fst (requests c (A k u) s o b)) = false.
 Proof. exact embedded_never_fetches. Qed.
 
+(* no time-stamp request for ingredient manifests unless enabled, whatever skip_existing / fetch_scope say *)
+Theorem c28_no_ingredient_timestamp_unless_enabled :
+  forall u c k s o b, ats_on c = false -> existsb is_tsa_ing (fst (requests c (A k u) s o b)) = false.
+Proof. exact no_ingredient_timestamp_unless_enabled. Qed.
+
+Theorem c28_ingredient_timestamp_when_enabled :
+  forall u rm oc cs sk sc b,
+    fst (requests (C rm oc cs true sk sc) (A ARemoteEmbedded u) STsa OpSign b) = [RTsaIng] /\
+    existsb is_tsa_ing (fst (requests (C rm oc cs true sk sc) (A AEmbedded u) STsa OpSign b)) = negb sk.
+Proof. exact ingredient_timestamp_when_enabled. Qed.
+
 Theorem c28_all_off_silent :
-  forall u k o b, fst (requests (C false false false) (A k u) SNoTsa o b) = [].
+  forall u k o b sk sc, fst (requests (C false false false false sk sc) (A k u) SNoTsa o b) = [].
 Proof. exact all_off_silent. Qed.
 
 (* stapled OCSP responses: a usable, conclusive staple settles revocation without any request in any
@@ -56,8 +69,9 @@ Proof. exact unusable_staple_falls_through. Qed.
 
 (* non-vacuity: with the settings on, the requests are made *)
 Example c28_example :
-  requests (C true true true) (A ARemoteOnly 7) SNoTsa OpRead true = ([RManifest 7], OOk) /\
-  requests (C false true false) (A AEmbeddedAia 7) SNoTsa OpRead true = ([ROcsp], OOk) /\
-  requests (C false false true) (A AEmbeddedAia 7) STsa OpSign true = ([ROcsp; RTsa], OErrTsa) /\
-  length domain = 768%nat.
+  requests (C true true true false true false) (A ARemoteOnly 7) SNoTsa OpRead true = ([RManifest 7], OOk) /\
+  requests (C false true false false true false) (A AEmbeddedAia 7) SNoTsa OpRead true = ([ROcsp], OOk) /\
+  requests (C false false true false true false) (A AEmbeddedAia 7) STsa OpSign true = ([ROcsp; RTsa], OErrTsa) /\
+  requests (C false false false true false false) (A AEmbedded 7) STsa OpSign true = ([RTsaIng], OErrTsaIng) /\
+  length domain = 6144%nat.
 Proof. vm_compute. repeat split. Qed.
